@@ -43,6 +43,36 @@ theorem slot_in_history (h : Hashing) (W : SyncIn) (r k : Int) (S : List Int) (h
   rw [hview, desired_cons_erase r S k h1 hk]
   exact (hbefore.erase k).symm
 
+/-- **scale-out at slot `k`, the whole history**: from a final world with `replicas = r` and `k` among the slots `S`, the user
+    un-lists `k` and raises `replicas` to `r + 1` (with `k` below the new bound). The history converges, and the ordinals
+    occupied afterwards are the ordinals occupied before plus `k` — and only `k`. -/
+theorem slot_out_history (h : Hashing) (W : SyncIn) (r k : Int) (hF : Final h W)
+    (hr : W.view.replicas = some r) (h0 : 0 ≤ r) (hkS : k ∈ W.view.slots)
+    (hk : k ∈ desired (r + 1) (W.view.slots.filter (fun s => decide (s ≠ k))))
+    (hw : wfWorld h (applyEdits [.replicas (r + 1), .slots (some (W.view.slots.filter (fun s => decide (s ≠ k))))] W) = true)
+    (hx : extraMB h (applyEdits [.replicas (r + 1), .slots (some (W.view.slots.filter (fun s => decide (s ≠ k))))] W) = true) :
+    ∃ n ≤ roundBound (applyEdits [.replicas (r + 1), .slots (some (W.view.slots.filter (fun s => decide (s ≠ k))))] W),
+      Final h (roundsN h n (applyEdits [.replicas (r + 1), .slots (some (W.view.slots.filter (fun s => decide (s ≠ k))))] W)) ∧
+      ((ownPods (roundsN h n (applyEdits [.replicas (r + 1),
+          .slots (some (W.view.slots.filter (fun s => decide (s ≠ k))))] W))).map (·.pod.ord)).Perm
+        (k :: (ownPods W).map (·.pod.ord)) := by
+  obtain ⟨n, hn, hf, hp⟩ := edits_converge_to_desired h _ W hw hx
+  refine ⟨n, hn, hf, hp.trans ?_⟩
+  have hbefore := final_ords hF
+  have hrW : replicasOf W.view = r := by simp [replicasOf, hr]
+  rw [hrW] at hbefore
+  have hne : ¬ W.view.replicas = some (r + 1) := by
+    intro h; rw [hr] at h; injection h with h; omega
+  have hview : desired (replicasOf (applyEdits [.replicas (r + 1),
+        .slots (some (W.view.slots.filter (fun s => decide (s ≠ k))))] W).view)
+      (applyEdits [.replicas (r + 1), .slots (some (W.view.slots.filter (fun s => decide (s ≠ k))))] W).view.slots =
+      desired (r + 1) (W.view.slots.filter (fun s => decide (s ≠ k))) := by
+    simp [applyEdits, applyEdit, editReplicas, hne, replicasOf]
+  rw [hview]
+  refine (List.perm_cons_erase hk).trans (List.Perm.cons k ?_)
+  rw [desired_unlist_erase r W.view.slots k h0 hkS hk]
+  exact hbefore.symm
+
 /-- **plain scale-in by one, the whole history**: afterwards the occupied ordinals are those before without the top one -/
 theorem scale_in_history (h : Hashing) (W : SyncIn) (r : Int) (hF : Final h W)
     (hr : W.view.replicas = some (r + 1)) (h0 : 0 ≤ r)
